@@ -89,6 +89,12 @@ func (c *conn) Close() error {
 	return c.terminate(net.ErrClosed)
 }
 
+// failed reports whether the connection has been torn down by an I/O failure,
+// as opposed to closed by its owner.
+func (c *conn) failed() bool {
+	return !c.closed.Load() && c.ctx.Err() != nil
+}
+
 // terminate gracefully shuts down the connection by canceling the server context,
 // closing the transaction channel if it exists, and closing the underlying stream.
 // It accepts an error parameter to provide context for the cancellation.
